@@ -723,6 +723,13 @@ func TestVerifC12(t *testing.T) {
 				c12JudgeMeaning(r, n.render(full, kwLower), "seqql", n.eval)
 				c12JudgeMeaning(r, n.render(full, kwUpper), "legacy", n.eval)
 				r.Add("meaning_cases", 2)
+				// the same filter followed by pipe stages (SeqQL only): the pipes do not take part in the selection
+				if leaves <= 3 {
+					for _, pipe := range []string{" | fields k", "| fields except k, t"} {
+						c12JudgeMeaning(r, n.render(full, kwLower)+pipe, "seqql", n.eval)
+						r.Add("meaning_cases", 1)
+					}
+				}
 			}
 		})
 	}
@@ -791,7 +798,7 @@ func TestVerifC12(t *testing.T) {
 	r.Sample(c12Case{Kind: "meaning", Input: "not (k:a or not k:b) and k:c", Parser: "seqql"})
 	ev := r.Get("evaluations")
 	r.Finish(t, "model_checking",
-		fmt.Sprintf("totality: every string of <=%d lexemes over a %d-lexeme alphabet (field names of every mapping type incl. object/tags/nested/exists/multi-type/unmapped, all punctuation of both grammars, keywords, quotes of three kinds, backslash, comment, invalid UTF-8, the private-use wildcard rune) plus every string '<field>:' + %d lexemes, through ParseSeqQL and ParseQuery (full and nil mapping) and ParseAggregationFilter, each under recover, in worker subprocesses (hang => bisection); three deeply nested queries (4 M levels of parentheses in both parsers, 4 M NOTs in the legacy parser; the process must survive); single-edit mutation closure (delete / duplicate / insert / substitute by every lexeme at every position) of 8 seed queries. meaning: every boolean tree with <=4 leaves over 3 atoms with NOT at every node (double NOT at the root), minimal and full parentheses, both languages, all 8 assignments; 6 texts that are valid in both languages sent to one store in alternating languages (each answer equals that of a store that only saw that language); 10 ordinary queries re-parsed after each of 9 queries carrying a 5000-byte token (the AST must not depend on earlier requests); in(...) lists of every length 1..130 in 4 query shapes, judged on one document per listed value plus an unlisted one; text-word conjunction. distinct_nontrivial = distinct well-formed queries whose meaning was compared", maxLen, len(c12Lexemes), maxLen),
+		fmt.Sprintf("totality: every string of <=%d lexemes over a %d-lexeme alphabet (field names of every mapping type incl. object/tags/nested/exists/multi-type/unmapped, all punctuation of both grammars, keywords, quotes of three kinds, backslash, comment, invalid UTF-8, the private-use wildcard rune) plus every string '<field>:' + %d lexemes, through ParseSeqQL and ParseQuery (full and nil mapping) and ParseAggregationFilter, each under recover, in worker subprocesses (hang => bisection); three deeply nested queries (4 M levels of parentheses in both parsers, 4 M NOTs in the legacy parser; the process must survive); single-edit mutation closure (delete / duplicate / insert / substitute by every lexeme at every position) of 8 seed queries. meaning: every boolean tree with <=4 leaves over 3 atoms with NOT at every node (double NOT at the root), minimal and full parentheses, both languages, all 8 assignments, the SeqQL rendering of the trees with <=3 leaves also followed by a fields pipe (allow and except form); 6 texts that are valid in both languages sent to one store in alternating languages (each answer equals that of a store that only saw that language); 10 ordinary queries re-parsed after each of 9 queries carrying a 5000-byte token (the AST must not depend on earlier requests); in(...) lists of every length 1..130 in 4 query shapes, judged on one document per listed value plus an unlisted one; text-word conjunction. distinct_nontrivial = distinct well-formed queries whose meaning was compared", maxLen, len(c12Lexemes), maxLen),
 		map[string]any{
 			"states":                        r.Get("totality_strings") + r.Get("mutation_strings") + r.Get("meaning_cases"),
 			"transitions":                   ev,
